@@ -13,7 +13,7 @@ rm -f konst/tests/seeded_demo.rs
 # 1. clean tree + patch applies
 git checkout -q -- . 2>/dev/null
 git apply --check "$out/patch.diff" || { echo "PATCH DOES NOT APPLY"; exit 3; }
-demo_cmd="cargo test --offline -p konst --features rust_1_83,alloc --test seeded_demo"
+demo_cmd="cargo test --offline ${DEMO_FLAGS:-} -p konst --features rust_1_83,alloc --test seeded_demo"
 has_demo=0
 if [ -f "$out/demo.rs" ]; then has_demo=1; fi
 run_demo() { cp "$out/demo.rs" konst/tests/seeded_demo.rs; $demo_cmd > "$1" 2>&1; rc=$?; rm -f konst/tests/seeded_demo.rs; return $rc; }
@@ -69,7 +69,7 @@ meta = {
     "demo_fails_with_patch": patched_rc not in ("0", "-1"),
     "existing_suite_with_patch": {"passed": int(passed or 0), "failed": int(failed or 0), "failing": failing, "baseline": "247 unit/integration passed + 281 doctests, 3 known failures (priv_string_tests::invalid_*)"},
   },
-  "ran": ["tools/confirm_seed.sh %s %s" % (prop, name), "demo: cargo test --offline -p konst --features rust_1_83,alloc --test seeded_demo (demo.rs copied to konst/tests/seeded_demo.rs)",
+  "ran": ["tools/confirm_seed.sh %s %s" % (prop, name), "demo: cargo test --offline %s -p konst --features rust_1_83,alloc --test seeded_demo (demo.rs copied to konst/tests/seeded_demo.rs)" % os.environ.get("DEMO_FLAGS", ""),
           "git -C /repo apply seeded/%s/patch.diff; ./check <id> quick; git -C /repo checkout -- ." % name],
   "our_checks": results.strip(),
 }
